@@ -38,6 +38,8 @@ type vfC07Case struct {
 	Sem       int         `json:"sem"`
 	Pre       []vfC07Pre  `json:"pre,omitempty"`
 	Offer     vfFamBSDP   `json:"offer"`
+	AlwaysDC  bool        `json:"always_dc,omitempty"` // Configuration.AlwaysNegotiateDataChannels
+	DCWhen    int         `json:"dc_when,omitempty"`   // CreateDataChannel: 0 never, 1 before SetRemoteDescription, 2 between SetRemoteDescription and CreateAnswer
 }
 
 func vfC07AddPre(v *vfT, pc *PeerConnection, cfg vfFamBMECfg, def bool, pre []vfC07Pre) {
@@ -183,6 +185,18 @@ func vfC07Compare(v *vfT, offerText, answerText string, unusable func(*vfFamBOSe
 	return fs
 }
 
+// vfC07DC creates a data channel on the answerer when do is set.
+func vfC07DC(v *vfT, pc *PeerConnection, do bool) {
+	if !do {
+		return
+	}
+	if _, err := pc.CreateDataChannel("vfC07", nil); err != nil {
+		v.Label("create-datachannel-error")
+		return
+	}
+	v.Label("answerer:datachannel-created")
+}
+
 func vfC07Unusable(cfg vfFamBMECfg, def bool) func(*vfFamBOSec) (bool, string) {
 	return func(o *vfFamBOSec) (bool, string) {
 		if o.Media != "audio" && o.Media != "video" && o.Media != "application" {
@@ -207,12 +221,16 @@ func vfC07Unusable(cfg vfFamBMECfg, def bool) func(*vfFamBOSec) (bool, string) {
 }
 
 func vfC07Run(v *vfT, c vfC07Case) {
-	pc, err := vfFamBNewPC(vfFamBPCOpts{ME: c.ME, DefaultME: c.DefaultME, Semantics: vfFamBSemantics[c.Sem%len(vfFamBSemantics)]})
+	pc, err := vfFamBNewPC(vfFamBPCOpts{ME: c.ME, DefaultME: c.DefaultME, Semantics: vfFamBSemantics[c.Sem%len(vfFamBSemantics)], AlwaysDC: c.AlwaysDC})
 	if err != nil {
 		v.Skip("NewPeerConnection: " + err.Error())
 	}
 	defer func() { _ = pc.Close() }()
 	vfC07AddPre(v, pc, c.ME, c.DefaultME, c.Pre)
+	vfC07DC(v, pc, c.DCWhen == 1)
+	if c.AlwaysDC {
+		v.Label("answerer:always-negotiate-datachannels")
+	}
 
 	text := c.Offer.Render()
 	unknown, absent, unsupported := false, false, false
@@ -253,6 +271,7 @@ func vfC07Run(v *vfT, c vfC07Case) {
 		v.Logf("SetRemoteDescription: %v", err)
 		return
 	}
+	vfC07DC(v, pc, c.DCWhen == 2)
 	ans, err := pc.CreateAnswer(nil)
 	if err != nil {
 		v.Label("create-answer-error")
@@ -260,6 +279,13 @@ func vfC07Run(v *vfT, c vfC07Case) {
 		return
 	}
 	v.Label("answer-ok")
+	hasApp := false
+	for _, sec := range c.Offer.Sections {
+		hasApp = hasApp || sec.Media == "application"
+	}
+	if (c.DCWhen != 0 || c.AlwaysDC) && !hasApp {
+		v.Label("answer-ok:datachannel-wanted,media-only-offer")
+	}
 	vfFamBReport(v, vfC07Compare(v, text, ans.SDP, un))
 }
 
@@ -316,6 +342,8 @@ func TestVerif_C07_Foreign(t *testing.T) {
 			a, vid = true, true
 		}
 		c.Pre = vfC07GenPre(r, a, vid)
+		c.AlwaysDC = rapid.IntRange(0, 5).Draw(r, "alwaysDC") == 0
+		c.DCWhen = rapid.SampledFrom([]int{0, 0, 0, 1, 2}).Draw(r, "dcWhen")
 		c.Offer = vfFamBGenSDP(r, vfFamBGenOpts{
 			MinSec: 1, MaxSec: 6,
 			Medias:    []string{"audio", "audio", "audio", "video", "video", "video", "application", "text", "message"},
@@ -350,6 +378,8 @@ type vfC07MungedCase struct {
 	OffererDC   bool         `json:"offerer_dc,omitempty"`
 	Pre         []vfC07Pre   `json:"pre,omitempty"`
 	Munges      []vfC07Munge `json:"munges"`
+	AlwaysDC    bool         `json:"always_dc,omitempty"`
+	DCWhen      int          `json:"dc_when,omitempty"`
 }
 
 func vfC07MungedRun(v *vfT, c vfC07MungedCase) {
@@ -414,23 +444,28 @@ func vfC07MungedRun(v *vfT, c vfC07MungedCase) {
 	if unknown || absent {
 		v.NonTrivial()
 	}
-	ansPC, err := vfFamBNewPC(vfFamBPCOpts{DefaultME: true})
+	ansPC, err := vfFamBNewPC(vfFamBPCOpts{DefaultME: true, AlwaysDC: c.AlwaysDC})
 	if err != nil {
 		v.Skip("NewPeerConnection: " + err.Error())
 	}
 	defer func() { _ = ansPC.Close() }()
 	vfC07AddPre(v, ansPC, def, true, c.Pre)
+	vfC07DC(v, ansPC, c.DCWhen == 1)
 	if err := ansPC.SetRemoteDescription(SessionDescription{Type: SDPTypeOffer, SDP: text}); err != nil {
 		v.Label("set-remote-error")
 		v.Logf("SetRemoteDescription: %v", err)
 		return
 	}
+	vfC07DC(v, ansPC, c.DCWhen == 2)
 	ans, err := ansPC.CreateAnswer(nil)
 	if err != nil {
 		v.Label("create-answer-error")
 		return
 	}
 	v.Label("answer-ok")
+	if (c.DCWhen != 0 || c.AlwaysDC) && !c.OffererDC {
+		v.Label("answer-ok:datachannel-wanted,media-only-offer")
+	}
 	vfFamBReport(v, vfC07Compare(v, text, ans.SDP, vfC07Unusable(def, true)))
 }
 
@@ -449,6 +484,8 @@ func TestVerif_C07_Munged(t *testing.T) {
 		}
 		c.OffererDC = rapid.Bool().Draw(r, "dc")
 		c.Pre = vfC07GenPre(r, true, true)
+		c.AlwaysDC = rapid.IntRange(0, 5).Draw(r, "alwaysDC") == 0
+		c.DCWhen = rapid.SampledFrom([]int{0, 0, 0, 1, 2}).Draw(r, "dcWhen")
 		nm := rapid.IntRange(0, 3).Draw(r, "nMunges")
 		for i := 0; i < nm; i++ {
 			m := vfC07Munge{Op: rapid.SampledFrom([]string{"text", "nodir", "token-mids", "remap-pt"}).Draw(r, "op"), Sec: rapid.IntRange(0, 5).Draw(r, "sec")}
